@@ -78,8 +78,15 @@ fn check(id: &str, tier: &str) -> i32 {
                 let r1 = catch(|| (entry.replay)(&v.case));
                 let r2 = catch(|| (entry.replay)(&v.case));
                 let same = match (&r1, &r2) { (Ok(a), Ok(b)) => a == b, (Err(a), Err(b)) => a == b, _ => false };
-                if !same { machinery.push(format!("replay diverged for sig={} case={}", v.sig, v.case)); continue; }
-                if matches!(r1, Ok(None)) { machinery.push(format!("violation did not reproduce on replay: sig={} case={}", v.sig, v.case)); continue; }
+                // C31 is the reproducibility property itself: its cases build simulators from fixed configurations only (no clock, no
+                // entropy, no hash-order dependent output on the harness side), so a case whose verdict changes when it is executed
+                // again in the same process is a counterexample in its own right (the subject depends on process history), not a
+                // machinery fault. For every other property a diverging replay means the harness does not own its nondeterminism.
+                let history_dependent = id == "C31" && (!same || matches!(r1, Ok(None)));
+                if !history_dependent {
+                    if !same { machinery.push(format!("replay diverged for sig={} case={}", v.sig, v.case)); continue; }
+                    if matches!(r1, Ok(None)) { machinery.push(format!("violation did not reproduce on replay: sig={} case={}", v.sig, v.case)); continue; }
+                }
             }
             let path = format!("{dir}/{n}.json");
             let j = Json::Obj(vec![
@@ -160,6 +167,12 @@ fn replay(path: &str) -> i32 {
     let r1 = catch(|| (entry.replay)(case));
     let r2 = catch(|| (entry.replay)(case));
     let same = match (&r1, &r2) { (Ok(a), Ok(b)) => a == b, (Err(a), Err(b)) => a == b, _ => false };
+    if !same && id == "C31" {
+        // see check(): for the reproducibility property a verdict that changes between two executions of the same case is the violation
+        println!("replay {id}: executing the case twice in this process gave different verdicts ({:?} vs {:?}): the outcome depends on process history", r1, r2);
+        println!("VIOLATION property={id} replay={path}");
+        return 1;
+    }
     if !same { eprintln!("MACHINERY ERROR: replay diverged"); return 2; }
     match r1 {
         Ok(None) => { println!("replay {id}: case holds (no violation)"); 0 }
